@@ -363,11 +363,17 @@ class _Walker:
         if isinstance(e.op, (ast.LShift,)):
             self.operator_effect(e, l, r)
             return l | r
+        if isinstance(e.op, ast.RShift):
+            # q >> unit resolves to AbstractDimension.get_in (an alias in the class body)
+            for m in self.eng._by_method.get('get_in', []):
+                self.sum.calls.add(m.fq)
+                self.apply_summary(m, e, l, [r], {}, 'method')
         return {self.fresh(e)}
 
     def operator_effect(self, e, l, r):
         # q << unit  and  unit << q resolve to AbstractDimension.convert
         for m in self.eng._by_method.get('convert', []):
+            self.sum.calls.add(m.fq)
             self.apply_summary(m, e, l | r, [set()], {}, 'method')
 
     def x_UnaryOp(self, e):
